@@ -76,11 +76,11 @@ type taintPass struct {
 }
 
 var namedSinks = map[string]bool{
-	"deps.dev/util/resolve.SortVersions":      true,
-	"deps.dev/util/resolve.SortDependencies":  true,
-	"deps.dev/util/resolve.sortNPMVersions":   true,
-	"deps.dev/util/resolve/pypi.filterSlice":  true,
-	"deps.dev/util/resolve/pypi.intersect":    true,
+	"deps.dev/util/resolve.SortVersions":        true,
+	"deps.dev/util/resolve.SortDependencies":    true,
+	"deps.dev/util/resolve.sortNPMVersions":     true,
+	"deps.dev/util/resolve/pypi.filterSlice":    true,
+	"deps.dev/util/resolve/pypi.intersect":      true,
 	"deps.dev/util/resolve.sortNPMDependencies": true,
 }
 
@@ -1006,7 +1006,6 @@ func identOf(e ast.Expr) *ast.Ident {
 	}
 	return nil
 }
-
 
 // ---- output
 
